@@ -20,8 +20,9 @@ Terms are nested tuples (hashable):
 """
 import ast
 
+from .core import GenV
 from .core import (Interp, TupleV, Closure, FuncRef, ClassRef, ExtRef, ObjV, BoundMethod, SuperV, SliceV, Ctx, PartialV, StaticV, KwV, ARGS, is_static)
-GENERIC_VALUES = (TupleV, Closure, FuncRef, ClassRef, ExtRef, ObjV, BoundMethod, SuperV, SliceV, PartialV)
+GENERIC_VALUES = (TupleV, Closure, FuncRef, ClassRef, ExtRef, ObjV, BoundMethod, SuperV, SliceV, PartialV, GenV)
 from .loader import Inconclusive, norm, dotted_of
 
 NONE = ("const", None)
@@ -65,6 +66,8 @@ def T(v):
     if isinstance(v, Closure):
         CLOSURES[(v.node.lineno, getattr(v.node, "col_offset", 0))] = v
         return ("closure", v.node.lineno, getattr(v.node, "col_offset", 0))
+    if isinstance(v, GenV):
+        return ("generator", v.func.qname, tuple(sorted((k, T(x)) for k, x in v.bound.items())))
     if isinstance(v, FuncRef):
         return ("fn", v.func.qname)
     if isinstance(v, PartialV):
@@ -582,6 +585,8 @@ class Sym(Interp):
         if (self.inline(func) or func.qname in self.force_interpret) and func.qname not in ctx.stack and not getattr(func, "cached", False):     # a memoised function is not a transparent helper
             r = super().call_repo_raw(func, selfobj, args, kwargs, n, env, ctx)
             f.result = T(r) if r is not None else NONE
+            if isinstance(r, GenV):
+                return r                        # a generator object: nothing has run, nothing to propagate
             self.propagate_inplace(func, n, env, ctx)
             return r
         # uninterpreted, arguments keyed by parameter name where the binding is unambiguous
